@@ -1,7 +1,7 @@
 (* C12 - rotation, reflection, signed scaling: structural part.  Pinned theorems only. *)
 From Coq Require Import ZArith List Bool Reals Lra.
 From Flocq Require Import Core BinarySingleNaN.
-Require Import GV.FloatBase GV.FloatLemmas GV.AngleM GV.AngleProofs GV.GeonumM GV.GeonumProofs GV.TraitsM GV.NewProofs GV.CtorProofs GV.PiBounds GV.TrigProofs GV.DotValue GV.DirProofs.
+Require Import GV.FloatBase GV.FloatLemmas GV.AngleM GV.AngleProofs GV.GeonumM GV.GeonumProofs GV.TraitsM GV.NewProofs GV.CtorProofs GV.PiBounds GV.TrigProofs GV.DotValue GV.DirProofs GV.DistValue GV.SymProofs.
 Open Scope R_scope.
 
 Theorem C12_rotate : forall g r, mag (grotate g r) = mag g /\ ang (grotate g r) = geometric_add (ang g) r.
@@ -61,3 +61,13 @@ Theorem C12_reflect_direction : forall g axis, canonp (rem (ang g)) -> Canon (an
     <= 3 * R_ eps10 + 7 * / 4503599627370496 + 3 / 10000000000000000.
 Proof. exact reflect_dirR. Qed.
 Print Assumptions C12_reflect_direction.
+
+(* reflecting twice across the same axis returns the original magnitude (bit-exact) and direction
+   (cos and sin of it, REAL pi) within twice the reflection tolerance *)
+Theorem C12_double_reflection : forall g axis, Canon (ang g) -> Canon (ang axis) ->
+  let r1 := reflect g axis in let r2 := reflect r1 axis in
+  mag r2 = mag g /\
+  Rabs (cos (dirR (ang r2)) - cos (dir (ang g))) <= 2 * (3 * R_ eps10 + 7 * / 4503599627370496 + 3 / 10000000000000000) /\
+  Rabs (sin (dirR (ang r2)) - sin (dir (ang g))) <= 2 * (3 * R_ eps10 + 7 * / 4503599627370496 + 3 / 10000000000000000).
+Proof. exact double_reflection. Qed.
+Print Assumptions C12_double_reflection.
